@@ -3,6 +3,7 @@ package symgo
 // Natives behind the harness API package (internal/verif in the repository overlay).
 
 import (
+	"os"
 	"fmt"
 	"go/types"
 	"strings"
@@ -99,6 +100,9 @@ func registerVerifAPI(m *Machine) {
 		return nil
 	}
 	N[P+"Note"] = func(m *Machine, fr *Frame, a []Value) Value {
+		if os.Getenv("SYMGO_NOTES") != "" {
+			fmt.Fprintln(os.Stderr, "NOTE:", strArg(a[0]))
+		}
 		m.X.assume[strArg(a[0])] = true
 		return nil
 	}
